@@ -4,6 +4,7 @@ API level: VersionedDataHandler.compute_versioned_margin_estimate(data=...) on g
 repeats, zero-vote versions, downward revisions, re-scaled percents, duplicate percents, first observation at 0 %, votes moved
 between the parties with no new votes, integer and float column dtypes) against lean/ElexModel/Core/Versioned.lean.
 """
+import json
 import math
 from fractions import Fraction
 
@@ -283,6 +284,96 @@ def extract(run):
     return X.generate("C17")
 
 
+# ----------------------------------------------------------------------------------------------
+# the same histories through the storage layer: VersionedDataHandler.get_versioned_results over a scripted versioned bucket
+
+
+def via_storage(case):
+    """publish the case as successive versions of one results file (every unit is in every version; a unit whose history is shorter
+    keeps its last row), fetch them with get_versioned_results and impute; returns (padded case, result per unit | error)"""
+    import datetime as dt
+    import io
+
+    C.use_repo()
+    from elexmodel.handlers import s3
+    from elexmodel.handlers.data.VersionedData import VersionedDataHandler
+
+    n = max(len(u["rows"]) for u in case["units"])
+    padded = {"units": [dict(u, rows=u["rows"] + [u["rows"][-1]] * (n - len(u["rows"]))) for u in case["units"]], "dtype": case["dtype"]}
+    base = dt.datetime(2024, 11, 5, 12, 0, 0, tzinfo=dt.timezone.utc)
+    cols = ["results_dem", "results_gop", "results_turnout", "percent_expected_vote"]
+    files = []
+    for j in range(n):
+        lines = ["geographic_unit_fips," + ",".join(cols)]
+        for u in padded["units"]:
+            r = u["rows"][j]
+            lines.append(u["id"] + "," + ",".join(repr(r[c]) if case["dtype"] == "float" or c == "percent_expected_vote" else str(int(r[c])) for c in cols))
+        files.append(("\n".join(lines) + "\n").encode())
+    vers = [{"VersionId": f"v{j}", "LastModified": base + dt.timedelta(minutes=j), "Size": len(files[j]), "Key": "k"} for j in range(n)][::-1]
+
+    class Client:
+        def list_object_versions(self, Bucket, Prefix, **kw):
+            return {"IsTruncated": False, "Versions": [dict(v) for v in vers]}
+
+    class Future:
+        def result(self):
+            return None
+
+    class Manager:
+        def download(self, bucket, key, fileobj, extra_args=None, subscribers=None):
+            fileobj.write(files[int((extra_args or {})["VersionId"][1:])])
+            return Future()
+
+    class Sess:
+        def create_client(self, name):
+            return Client()
+
+    orig = (s3.get_session, s3.TransferManager)
+    s3.get_session = lambda: Sess()
+    s3.TransferManager = lambda c: Manager()
+    try:
+        h = VersionedDataHandler("2022-11-08_USA_G", "S", "county", estimands=["margin"], sample=1)
+    finally:
+        s3.get_session, s3.TransferManager = orig
+    try:
+        with np.errstate(all="ignore"):
+            data = h.get_versioned_results()
+            out = h.compute_versioned_margin_estimate(data=data.copy())
+    except Exception as e:
+        return padded, {"raises": type(e).__name__, "msg": str(e)[:200]}
+    res = {}
+    for u, g in out.groupby("geographic_unit_fips"):
+        res[str(u)] = {"error": sorted(set(g["error_type"])), "rows": [
+            [int(r["percent_expected_vote"]), r["nearest_observed_vote"], r["est_margin"], r["est_correction"]]
+            for r in g.to_dict(orient="records")]}
+    return padded, res
+
+
+def storage_stream(run, n):
+    rng = run.rng
+    for _ in range(n):
+        case = gen_case(rng)
+        if any(not u["rows"] for u in case["units"]):
+            continue
+        padded, via = via_storage(case)
+        _, direct = impl_run(padded)
+        run.case({"via_storage": True, "case": case}, True)
+        run.count("histories through the versioned bucket")
+
+        def norm(res):
+            return {u: {"error": v["error"], "rows": [[r[0]] + [None if nan(x) else float(x) for x in r[1:]] for r in v["rows"]]}
+                    for u, v in res.items()} if "raises" not in res else res
+
+        if norm(via) != norm(direct):
+            bad = next((u for u in norm(direct) if norm(via).get(u) != norm(direct)[u]), None) if "raises" not in via and "raises" not in direct else None
+            run.violation("a history fetched from the versioned bucket is not imputed like the same history given directly "
+                          "(versions lost, merged or re-ordered on the way)", input=case, unit=bad,
+                          impl=(via.get(bad, {}).get("error") if bad else via), expected=(direct.get(bad, {}).get("error") if bad else direct),
+                          predicate="irregular_all_missing / regular_kept", signature="C17:storage")
+        else:
+            run.traces += 1
+
+
 def explore(run, driver, budget):
     run.info["rule"] = RULE
     n = {"quick": 300, "thorough": 20000, "search": 3000}[budget]
@@ -309,10 +400,19 @@ def explore(run, driver, budget):
             run.count("history " + k)
         run.count("dtype " + case["dtype"])
         check(run, case, inputs, impl, mouts)
+    storage_stream(run, {"quick": 40, "thorough": 1500, "search": 300}[budget])
 
 
 def replay(run, driver, payload):
     case = payload["input"]
+    if payload.get("signature") == "C17:storage":
+        padded, via = via_storage(case)
+        _, direct = impl_run(padded)
+        run.case({"via_storage": True, "case": case}, True)
+        if json.dumps(via, default=str, sort_keys=True) != json.dumps(direct, default=str, sort_keys=True):
+            run.violation("a history fetched from the versioned bucket is not imputed like the same history given directly", input=case,
+                          predicate="irregular_all_missing / regular_kept", signature="C17:storage")
+        return
     inputs, impl = impl_run(case)
     mouts = None
     if driver is not None:
